@@ -1011,6 +1011,96 @@ func dscCase(c *mc.Ctx, item int, thorough bool) mc.Verdict {
 }
 
 // ---------------------------------------------------------------------------
+// buffer boundaries
+
+// The scanner reads its input in blocks of 512 bytes.  What a text denotes
+// must not depend on where it stands relative to those blocks: every snippet is
+// read at offset 0 (this reading is what the other families check) and again
+// behind p bytes of white space for every p around the first three block
+// boundaries, through three kinds of reader.
+var boundarySnippets = []string{
+	"%%Title: first line\n%%+ second line\n{/a 1}\n",
+	"%%A: x\r\n%%+ y\r\n%%+z\r\n{2}\r\n%%EOF\r\n",
+	"%%K: v\r%%+ w\r{3}\r",
+	"{(abc\\\n def\\051\\n) <48 65 6c> <~87cURD]i,\"Ebo80~> 16#FF 1.5e3 /name name}\n",
+	"{(a\r\nb) (c\rd) (nested (parens) \\\\) (\\1\\12\\123\\1234)}\n",
+	"{% comment\n 1 %another\r 2 %%NotDSC: mid-line\n 3}\n",
+	"{<< /k 1 >> [ 1 2 ] -12345678901234567890 8#777 .5 -.5e-3 2147483648}\n",
+	"{abc/def(x)<41>[]{}/}\n",
+	"{(\\\r\nx\\\ry\\\nz) <~z!!~> <4> /a/b//c}\n",
+}
+
+type oneByte struct{ r io.Reader }
+
+func (o oneByte) Read(p []byte) (int, error) {
+	if len(p) == 0 {
+		return 0, nil
+	}
+	return o.r.Read(p[:1])
+}
+
+func boundaryOffsets() []int {
+	var out []int
+	for _, b := range []int{512, 1024, 1536} {
+		for p := b - 14; p <= b+3; p++ {
+			out = append(out, p)
+		}
+	}
+	return out
+}
+
+func boundaryObservation(text string, reader int) string {
+	intp := postscript.NewInterpreter()
+	var err error
+	switch reader {
+	case 0:
+		err = intp.ExecuteString(text)
+	case 1:
+		err = intp.Execute(&dataWithEOF{data: []byte(text)})
+	default:
+		err = intp.Execute(oneByte{strings.NewReader(text)})
+	}
+	return fmt.Sprintf("stack=%#v dsc=%#v err=%v", intp.Stack, intp.DSC, err)
+}
+
+func boundaryFamily(budget time.Duration) mc.Family {
+	offs := boundaryOffsets()
+	pads := []string{" ", "\n", "% pad\n"} // what the padding is made of; it always ends with a line end
+	n := len(boundarySnippets) * len(offs) * len(pads)
+	return mc.Family{Name: "buffer-boundaries", Items: n, Budget: budget,
+		Rule: fmt.Sprintf("%d snippets (DSC comments with `%%%%+` continuations in LF/CRLF/CR form, strings with line continuations, escapes and CR LF pairs, hex and ASCII85 strings, comments, numbers in every notation, names and delimiters without white space) x placed behind p bytes of padding (blanks / line feeds / comment lines, ending in a line end) for every p in %d..%d, %d..%d, %d..%d x 3 readers (all at once, last bytes together with io.EOF, one byte per call): objects, DSC comments and error must equal those of the snippet at offset 0; non-trivial = all", len(boundarySnippets), offs[0], offs[17], offs[18], offs[35], offs[36], offs[len(offs)-1], len(offs)),
+		Body: func(c *mc.Ctx, item int) mc.Verdict {
+			sn := boundarySnippets[item%len(boundarySnippets)]
+			p := offs[(item/len(boundarySnippets))%len(offs)]
+			unit := pads[item/len(boundarySnippets)/len(offs)]
+			pad := strings.Repeat(unit, p/len(unit)+1)[:p-1]
+			if unit == "% pad\n" {
+				pad = strings.Repeat(" ", (p-1)%len(unit)) + strings.Repeat(unit, (p-1)/len(unit))
+			}
+			pad += "\n"
+			want := boundaryObservation(sn, 0)
+			if strings.Contains(want, "err=<nil>") == false {
+				return mc.Fail("C04:HARNESS:boundary-snippet-fails-at-offset-0", fmt.Sprintf("%q: %s", sn, want))
+			}
+			for reader := 0; reader < 3; reader++ {
+				got := boundaryObservation(pad+sn, reader)
+				c.Step()
+				if got != want {
+					v := mc.Fail("C04:buffer-boundary:reading-depends-on-position", fmt.Sprintf("snippet %q behind %d bytes of padding (%q...), reader kind %d: %s, at offset 0: %s", sn, p, unit, reader, got, want))
+					v.Render = fmt.Sprintf("%q at offset %d", sn, p)
+					return v
+				}
+			}
+			return mc.Pass("same-reading", true)
+		},
+		Describe: func(item int) string {
+			return fmt.Sprintf("%q at offset %d", boundarySnippets[item%len(boundarySnippets)], offs[(item/len(boundarySnippets))%len(offs)])
+		},
+		CrashKey: func(int) string { return "C04:crash:buffer-boundaries" },
+	}
+}
+
+// ---------------------------------------------------------------------------
 // serialiser round trip
 
 func psStringBody(alpha []byte, maxLen int) (int, func(c *mc.Ctx, item int) mc.Verdict) {
@@ -1179,6 +1269,8 @@ func main() {
 			nd := len(dscPositions) * len(dscKeys) * (len(dscValues) + 2) * len(dscColons)
 			fams = append(fams, mc.Family{Name: "dsc", Items: nd, Body: dscBody(thorough), Budget: budget,
 				Rule: "item = (position of 6: first line, after a code line, after a plain comment, after a blank line, between the tokens of a procedure, in a second Execute) x key of 2 x value of 4 (or no colon, or empty) x colon/blank form of 4; choices: line end LF/CR/CRLF of the comment line (thorough: independently of the preceding line), none / one `%%+` continuation line (3 texts x 3 blank forms x 3 line ends) / two continuation lines (2 blank forms x 3 x 3 line ends), an optional second comment (2 kinds), following code / plain comment / end of file with or without final line end; observed in Interpreter.DSC in order; non-trivial = all"})
+
+			fams = append(fams, boundaryFamily(budget))
 
 			n1, b1 := psStringBody(func() []byte {
 				a := make([]byte, 256)
